@@ -21,11 +21,12 @@ for patch in sorted(glob.glob(out + "/patch_*.diff")):
     if ".orig" in patch:
         continue
     k = os.path.basename(patch)[6:-5]
-    sh("git -C %s checkout -q -- ." % wt)
+    sh("git -C %s reset -q --hard" % wt)
     a = sh("git -C %s apply --whitespace=nowarn %s" % (wt, patch))
     if a.returncode != 0:
         a = sh("git -C %s apply -3 --whitespace=nowarn %s" % (wt, patch))
     if a.returncode != 0:
+        sh("git -C %s reset -q --hard" % wt)
         print("== %s %s: PATCH DOES NOT APPLY: %s" % (pid, k, a.stderr.strip()[:200]))
         continue
     files = sh("git -C %s diff --stat | head -3" % wt).stdout.strip().replace("\n", " | ")
